@@ -18,6 +18,7 @@ limitations under the License.
 
 #include <algorithm>
 #include <cmath>
+#include <cstdlib>
 #include <cstring>
 #include <iomanip>
 #include <limits>
@@ -67,7 +68,12 @@ bool stringToDouble(const std::string &in, double &out)
     try {
         out = std::stod(in);
     } catch (std::out_of_range &) {
-        return false;
+        // std::stod() also throws for a subnormal result, which is a valid (and printable) double.
+        double value = std::strtod(in.c_str(), nullptr);
+        if (!std::isfinite(value) || (value == 0.0)) {
+            return false;
+        }
+        out = value;
     }
 
     return true;
